@@ -1,0 +1,67 @@
+//go:build verif
+
+// Copyright 2025 Dolthub, Inc.
+//
+// Licensed under the Apache License, Version 2.0 (the "License");
+// you may not use this file except in compliance with the License.
+// You may obtain a copy of the License at
+//
+//     http://www.apache.org/licenses/LICENSE-2.0
+//
+// Unless required by applicable law or agreed to in writing, software
+// distributed under the License is distributed on an "AS IS" BASIS,
+// WITHOUT WARRANTIES OR CONDITIONS OF ANY KIND, either express or implied.
+// See the License for the specific language governing permissions and
+// limitations under the License.
+
+package tree
+
+// Verification hooks (build tag `verif` only; nothing here is compiled into dolt).
+//
+// VerifSplitter is the exported twin of the unexported nodeSplitter interface, so that an
+// external harness can inject a deterministic boundary oracle through the existing package
+// variable defaultSplitterFactory.
+
+type VerifSplitter interface {
+	Append(key, values Item) error
+	CrossedBoundary() bool
+	Reset()
+}
+
+// VerifSetSplitterFactory replaces defaultSplitterFactory and returns a function restoring the
+// previous factory.  Not safe for concurrent use with running chunkers.
+func VerifSetSplitterFactory(f func(level uint8) VerifSplitter) (restore func()) {
+	old := defaultSplitterFactory
+	defaultSplitterFactory = func(level uint8) nodeSplitter { return f(level) }
+	return func() { defaultSplitterFactory = old }
+}
+
+// VerifNodeShape describes one node: its level, the number of items and, for internal nodes,
+// the stored subtree counts.
+type VerifNodeShape struct {
+	Level    int
+	Count    int
+	Subtrees []uint64
+	Keys     [][]byte
+}
+
+// VerifNodeShapeOf reads the structure of a single node.
+func VerifNodeShapeOf(nd *Node) (VerifNodeShape, error) {
+	sh := VerifNodeShape{Level: nd.Level(), Count: nd.Count()}
+	for i := 0; i < nd.Count(); i++ {
+		sh.Keys = append(sh.Keys, nd.GetKey(i))
+	}
+	if !nd.IsLeaf() {
+		ld, err := nd.LoadSubtrees()
+		if err != nil {
+			return sh, err
+		}
+		for i := 0; i < ld.Count(); i++ {
+			sh.Subtrees = append(sh.Subtrees, ld.GetSubtreeCount(i))
+		}
+	}
+	return sh, nil
+}
+
+// VerifChildAddress returns the address stored in slot i of an internal node.
+func VerifChildAddress(nd *Node, i int) [20]byte { return nd.getAddress(i) }
